@@ -127,7 +127,10 @@ class Bus:
                 continue
             # (while a receive handler is suspended in favour of a woken thread nothing is delivered re-entrantly: the receiver's own receive
             #  thread may be the suspended one, and a stack has only one)
+            # (nor while another thread holds a lock of the code under test: the receiving stack's handler would run in THIS thread and could
+            #  wait for that lock, which its own receive thread would not hold the sender up with)
             if self.zero_prob and not sim.eager_depth and not n.pending and n.last_delivery <= sim.now and self.rng.random() < self.zero_prob \
+                    and not sim.lock_held_by_other_thread() \
                     and (not hasattr(n, 'can_reenter') or n.can_reenter()):
                 n.last_delivery = sim.now
                 self.deliver(n, fr, reentrant=True)
